@@ -481,6 +481,9 @@ impl C17 {
 pub fn directed() -> Vec<(&'static str, Vec<&'static str>)> {
     vec![
         ("retained-int", vec!["stel a = 100", "a"]),
+        ("empty-block-value-then-failure", vec!["stel a = 1", "als ja { }", "stel b = 2", "onbekend", "b", "stel c = 3", "[a, b, c]"]),
+        ("empty-else-value-then-failure", vec!["stel r = als nee { 1 } anders { }", "stel b = 2", "stop", "[r, b]"]),
+        ("empty-loop-then-failure", vec!["zolang nee { }", "stel b = 2", "{ stel c = 3; onbekend }", "b", "stel b = 4", "b"]),
         ("retained-function", vec!["functie f() { 7 }", "f()"]),
         ("retained-function-var", vec!["stel dubbel = functie(x) { x * 2 }", "dubbel(21)", "dubbel(dubbel(1))"]),
         ("heap-global-array", vec!["stel a = [1.5, \"tekst\", [2]]", "a", "a[1]", "functie g() { 1 } g(); a"]),
@@ -527,8 +530,28 @@ fn random_session(r: &mut Rng) -> Vec<Line> {
                 ints[r.below(ints.len() as u64) as usize].clone()
             }
         };
-        let k = r.below(27);
+        let k = r.below(33);
         let text = match k {
+            // a whole generated program as one line (every construct of the language, in the global context of the
+            // session: its declarations become globals of the session, its blocks open and close scopes there)
+            27..=30 => {
+                let profile = crate::gen::PROFILES[r.below(crate::gen::PROFILES.len() as u64) as usize];
+                let (p, _) = crate::gen::random_program(r, profile);
+                crate::print::to_text(&p).replace('\n', " ")
+            }
+            // empty blocks, as statements and in value position
+            31 | 32 => {
+                fresh += 1;
+                match r.below(7) {
+                    0 => "als ja { }".to_string(),
+                    1 => format!("stel leeg{} = als nee {{ }} anders {{ }}", fresh),
+                    2 => "zolang nee { }".to_string(),
+                    3 => "{ }".to_string(),
+                    4 => "als nee { 1 } anders { }".to_string(),
+                    5 => format!("functie niks{}() {{ }}; niks{}()", fresh, fresh),
+                    _ => "[als ja { }, 1]".to_string(),
+                }
+            }
             0 | 1 => {
                 fresh += 1;
                 let name = format!("g{}", fresh);
